@@ -24,7 +24,13 @@ import (
 	"time"
 )
 
-const VerifDir = "/verif"
+// VerifDir is the root of the verification tree (VERIF_ROOT, default /verif).
+var VerifDir = func() string {
+	if v := os.Getenv("VERIF_ROOT"); v != "" {
+		return v
+	}
+	return "/verif"
+}()
 
 // Ctx is what a check's Run sees in one worker.
 type Ctx struct {
